@@ -485,7 +485,7 @@ inline void runC02(Ctx &c)
             MatrixXld Cref = denseReference(e, false);
             int at = -1;
             double ce = coeffError(e, C, Cref, 1e-3, &at);
-            c.check("C02.coeffs_vs_dense_oracle", ce, 1e-7, keyJson(e, "coefficients", 0), "segment=" + std::to_string(at));
+            c.check("C02.coeffs_vs_dense_oracle", ce, 3e-7, keyJson(e, "coefficients", 0), "segment=" + std::to_string(at));
             if (thorough && (idx % 16 == 0) && e.N <= 16)
             {
                 MatrixXld Cq = denseReference(e, true);
